@@ -892,6 +892,63 @@ func genMatch(r *rand.Rand, i int) Scenario {
 		Op{Op: "load", File: 8, Seg: 8, Backing: "mem"},
 		Op{Op: "merge", File: 9, In: []int{2, 3}, Drops: []DropSpec{{Kind: "nil"}, {Kind: "nil"}}, Mode: 0, Buf: 64},
 		Op{Op: "load", File: 9, Seg: 9, Backing: "mem"})
+	{
+		// a partner whose field list has the same LENGTH as the first input's and other names throughout
+		b4 := make(Batch, len(b2))
+		var pairs4 []Pair
+		seen4 := map[string]bool{}
+		for d := range b2 {
+			b4[d] = make(Doc, len(b2[d]))
+			for k, fi := range b2[d] {
+				if fi.Name != "_id" {
+					fi.Name = fi.Name + "q"
+					locs := func(ls []Loc) []Loc {
+						o := make([]Loc, len(ls))
+						for x, l := range ls {
+							if l.Field != "" && l.Field != "_id" {
+								l.Field = l.Field + "q"
+							}
+							o[x] = l
+						}
+						return o
+					}
+					ts := make([]TermOcc, len(fi.Terms))
+					for x, t := range fi.Terms {
+						t.Locs = locs(t.Locs)
+						ts[x] = t
+						key := fi.Name + "\x00" + string(t.Term.Raw())
+						if !seen4[key] {
+							seen4[key] = true
+							pairs4 = append(pairs4, Pair{fi.Name, t.Term})
+						}
+					}
+					fi.Terms = ts
+				}
+				b4[d][k] = fi
+			}
+		}
+		sc.Batches = append(sc.Batches, b4)
+		for _, f := range universeOf(&cfg) {
+			if f != "_id" {
+				sc.Universe = append(sc.Universe, f+"q")
+			}
+		}
+		sc.Ops = append(sc.Ops, Op{Op: "build", Seg: 15, Batch: len(sc.Batches) - 1, Mode: pickMode(r)},
+			Op{Op: "merge", File: 16, In: []int{2, 15}, Drops: []DropSpec{{Kind: "nil"}, {Kind: "nil"}}, Mode: 0, Buf: 64},
+			Op{Op: "load", File: 16, Seg: 16, Backing: "mem"})
+		sort.Slice(pairs4, func(a, b int) bool {
+			if pairs4[a].Field != pairs4[b].Field {
+				return pairs4[a].Field > pairs4[b].Field
+			}
+			return string(pairs4[a].Term.Raw()) < string(pairs4[b].Term.Raw())
+		})
+		if len(pairs4) > 12 {
+			pairs4 = pairs4[:12]
+		}
+		if len(pairs4) > 0 {
+			sc.Ops = append(sc.Ops, Op{Op: "match", Seg: 16, Pairs: pairs4}, Op{Op: "match", Seg: 16, Pairs: pairs4[:1]})
+		}
+	}
 	if len(b1) > 0 {
 		// the same segment listed twice, the second time without its first document
 		sc.Ops = append(sc.Ops, Op{Op: "merge", File: 13, In: []int{1, 1}, Drops: []DropSpec{{Kind: "nil"}, {Kind: "set", Docs: []int{0}}}, Mode: 0, Buf: 64},
@@ -1087,6 +1144,12 @@ func genImmut(r *rand.Rand, i int) Scenario {
 			if len(vocab) > 0 {
 				sc.Ops = append(sc.Ops, Op{Op: "match", Seg: 1 + r.Intn(3), Pairs: []Pair{vocab[r.Intn(len(vocab))]}})
 			}
+		}
+		if last := sc.Ops[len(sc.Ops)-1]; last.Op == "merge" {
+			// overlapping reads of the inputs right after the merge (whatever scratch objects it handed back are handed
+			// out again): a visit inside a visit, both ways
+			sc.Ops = append(sc.Ops, Op{Op: "stored", Seg: last.In[0], N: 0, Nested: &Op{Op: "stored", Seg: last.In[1], N: 0}},
+				Op{Op: "stored", Seg: last.In[1], N: 0, Nested: &Op{Op: "stored", Seg: last.In[0], N: 1, Nested: &Op{Op: "stored", Seg: last.In[0], N: 0}}})
 		}
 		sc.Ops = append(sc.Ops, Op{Op: "digest"})
 	}
